@@ -247,10 +247,13 @@ MathVal(fn, x) ==
          [] fn \in {"ceil", "floor"} -> x
          [] OTHER -> Opaque
 
+\* Go's math.Min(x, -Inf) = -Inf and math.Max(x, +Inf) = +Inf even when x is NaN
 ClampMax(v, mx) == IF v.k = "op" \/ mx.k = "op" THEN Opaque            \* math.Min(max, v)
+                   ELSE IF v.k = "ninf" \/ mx.k = "ninf" THEN NInf
                    ELSE IF v.k = "nan" \/ mx.k = "nan" THEN NaNV
                    ELSE IF VLess(v, mx) THEN v ELSE mx
 ClampMin(v, mn) == IF v.k = "op" \/ mn.k = "op" THEN Opaque            \* math.Max(min, v)
+                   ELSE IF v.k = "pinf" \/ mn.k = "pinf" THEN PInf
                    ELSE IF v.k = "nan" \/ mn.k = "nan" THEN NaNV
                    ELSE IF VLess(mn, v) THEN v ELSE mn
 
